@@ -15,6 +15,13 @@ CHECKS = {
         'drop-short-then-join. Model tied to util.py by exhaustive small-length + random correspondence.',
    ref='DESIGN.md section 6 C18', note=COMMON_NOTE + ' epochs modelled for pad=0; non-empty intervals assumed for smooth/debounce.',
    technique='Coq proof (induction over lists) + vm_compute correspondence against util.py'),
+ 'C14': dict(
+   text='Refinement theorem for ALL finite histories of append/invalidate/resize/read on any capacity: every output of the '
+        'ring-buffer model equals the output of an abstract spec (logical stream + oldest retained index); bounds invariant '
+        'lb <= ub = stream length, window = min(capacity, available). Model tied to buffer.py by exhaustive short histories around '
+        'every boundary + random long histories, 1-2 channels, three rates.',
+   ref='DESIGN.md section 6 C14', note=COMMON_NOTE + ' Times are passed as k/fs; appends >= 1 sample, invalidation index >= 0, resize >= 1 sample, reads lower <= upper.',
+   technique='Coq proof (simulation/refinement to abstract spec, induction over histories) + vm_compute correspondence against buffer.py'),
 }
 
 PENDING = 'not yet built in this round (framework is being extended property by property; see DESIGN.md section 8)'
